@@ -58,6 +58,12 @@ impl ReliableSender {
 
     /// Reliably send a message to a specific address.
     pub async fn send(&mut self, address: SocketAddr, data: Bytes) -> CancelHandler {
+        #[cfg(feature = "hotstuff_verif")]
+        if crate::verif::capture(true, address, &data) {
+            let (sender, receiver) = oneshot::channel();
+            let _ = sender.send(Bytes::from("Ack"));
+            return receiver;
+        }
         let (sender, receiver) = oneshot::channel();
         self.connections
             .entry(address)
